@@ -700,3 +700,63 @@ def show_function(f):
     for s in f.body:
         out += show_stmt(s, 1)
     return '\n'.join(out + ['}'])
+
+
+# --------------------------------------------------------------------------
+# alpha-normalisation (normal forms must not depend on the names of locals)
+
+def _rename_expr(e, ren):
+    if not isinstance(e, tuple):
+        return e
+    k = e[0]
+    if k == 'id':
+        return ('id', ren.get(e[1], e[1]))
+    if k in ('member', 'arrow'):
+        return (k, _rename_expr(e[1], ren), e[2])
+    if k == 'call':
+        return ('call', e[1], [_rename_expr(a, ren) for a in e[2]])
+    if k == 'cast':
+        return ('cast', e[1], _rename_expr(e[2], ren))
+    if k == 'list':
+        return ('list', [_rename_expr(a, ren) for a in e[1]])
+    if k in ('num', 'bool'):
+        return e
+    return (k,) + tuple(_rename_expr(x, ren) if isinstance(x, tuple) else x for x in e[1:])
+
+
+def _rename_stmt(s, ren):
+    k = s[0]
+    if k == 'expr':
+        return ('expr', _rename_expr(s[1], ren))
+    if k == 'decl':
+        return ('decl', s[1], ren.get(s[2], s[2]), s[3], _rename_expr(s[4], ren) if s[4] is not None else None, s[5])
+    if k == 'if':
+        return ('if', _rename_expr(s[1], ren), [_rename_stmt(x, ren) for x in s[2]],
+                [_rename_stmt(x, ren) for x in s[3]] if s[3] is not None else None)
+    if k == 'for':
+        return ('for', _rename_expr(s[1], ren), _rename_expr(s[2], ren), _rename_expr(s[3], ren),
+                [_rename_stmt(x, ren) for x in s[4]])
+    if k == 'switch':
+        return ('switch', _rename_expr(s[1], ren),
+                [(_rename_expr(l, ren) if l is not None else None, [_rename_stmt(x, ren) for x in b]) for l, b in s[2]])
+    if k == 'return':
+        return ('return', _rename_expr(s[1], ren) if s[1] is not None else None)
+    if k == 'break':
+        return s
+    if k == 'block':
+        return ('block', [_rename_stmt(x, ren) for x in s[1]])
+    raise CParseError('rename: %r' % (k,))
+
+
+def alpha_function(f):
+    """Parameters renamed p0, p1, ..., locals l0, l1, ... (declaration order)."""
+    ren = {}
+    for i, (_, n) in enumerate(f.params):
+        ren[n] = 'p%d' % i
+    j = 0
+    for s in f.body:
+        if s[0] == 'decl':
+            ren[s[2]] = 'l%d' % j
+            j += 1
+    return Function(f.name, f.ret, [(t, ren[n]) for t, n in f.params], [_rename_stmt(s, ren) for s in f.body],
+                    f.static, f.line)
